@@ -1024,4 +1024,31 @@ theorem raa_update_held_iff_some_claim_pending (evs : List RaaBlock.Ev) (chan : 
 example : RaaBlock.raaParked (RaaBlock.runEv RaaBlock.BlockMap.empty [.fulfil 1 0, .fulfil 1 2000, .release 1 0]) 1 = true := by decide
 example : RaaBlock.raaParked (RaaBlock.runEv RaaBlock.BlockMap.empty [.fulfil 1 0, .fulfil 1 2000, .release 1 0, .release 1 2000]) 1 = false := by decide
 
+/-- **The N-machine's gate IS the generated held test.**  In every reachable state of the N-HTLC machine (all op lists), for every
+    tracked HTLC `i`: the condition under which `FwdProto` parks the downstream `revoke_and_ack` update of `i` (its own blocker, or
+    the `downOther` counter) holds exactly when the GENERATED `raa_monitor_updates_held` is true of the map obtained by running the
+    GENERATED registration of `internal_update_fulfill_htlc` for every HTLC that holds a blocker.  (With a registration that drops a
+    blocker when another one is pending — round-5 seed — `held_registerAll` is unprovable.) -/
+theorem multi_gate_is_generated_held (n : Nat) (ops : List FwdMulti.MOp) (i : Nat) (hi : i < n) :
+    let m := FwdMulti.mrun (FwdMulti.minit n) ops
+    ((m.hs i).blocker = true ∨ (m.hs i).downOther ≠ 0)
+      ↔ RaaBlockGen.held (RaaBlock.registerAll ((List.range n).filter (fun k => (m.hs k).blocker))) 1 = true := by
+  intro m
+  have hco := multi_interference_coherent n ops i
+  simp only at hco
+  rw [RaaBlock.held_registerAll, show (m.hs i).downOther = FwdMulti.countOthers n i (fun k => (m.hs k).blocker) from hco,
+    RaaBlock.countOthers_ne_zero]
+  constructor
+  · rintro (h | ⟨k, hk, _, hp⟩)
+    · exact ⟨i, List.mem_filter.mpr ⟨List.mem_range.mpr hi, h⟩⟩
+    · exact ⟨k, List.mem_filter.mpr ⟨List.mem_range.mpr hk, hp⟩⟩
+  · rintro ⟨k, hk⟩
+    have hk' := List.mem_filter.mp hk
+    by_cases hki : k = i
+    · subst hki; exact Or.inl hk'.2
+    · exact Or.inr ⟨k, List.mem_range.mp hk'.1, hki, hk'.2⟩
+
+example : RaaBlockGen.held (RaaBlock.registerAll [0, 2]) 1 = true := by decide
+example : RaaBlockGen.held (RaaBlock.registerAll []) 1 = false := by decide
+
 end Ldk.C02
